@@ -18,10 +18,14 @@ def _err(*args):
 
 
 def _val(*args):
+    if len(args) == 2:
+        raise ValueError            # no message, no arguments
     raise ValueError("host function raises ValueError")
 
 
 def _typ(*args):
+    if len(args) == 1:
+        raise TypeError()
     raise TypeError("host function raises TypeError")
 
 
